@@ -280,7 +280,9 @@ def dkw_threshold(n, alpha=ALPHA):
 
 
 def sup_distance(sample, cdf, discrete=False):
-    """sup_x |F_n(x) − F(x)| (exact for continuous F; for a discrete F also the left limits at the sample's atoms)"""
+    """sup_x |F_n(x) − F(x)| (exact for continuous F; for a discrete F also the left limits at the sample's atoms,
+    evaluated 1e-9 (relative and absolute) below each atom — the discrete reference laws used here have atoms at
+    least 2^-20 apart)"""
     x = np.sort(np.asarray(sample, dtype=float))
     n = len(x)
     if not discrete:
@@ -291,8 +293,27 @@ def sup_distance(sample, cdf, discrete=False):
     Fn = np.cumsum(counts) / n
     Fn_left = Fn - counts / n
     F = cdf(atoms)
-    F_left = cdf(np.nextafter(atoms, -np.inf))
+    F_left = cdf(atoms - np.maximum(np.abs(atoms) * 1e-9, 1e-9))
     return float(max(np.max(np.abs(Fn - F)), np.max(np.abs(Fn_left - F_left))))
+
+
+def bingham_inverted_cdf(kappa):
+    """CDF (in the doubled angle) of the law a Kent–Ganeiber–Mardia sampler produces when its acceptance ratio DIVIDES by
+    the angular-central-Gaussian factor instead of multiplying: density ∝ exp(-u'Au) (u'Omega u)^(-q), q = 2"""
+    lo, hi = 1.0, 2.0
+    for _ in range(200):
+        mid = (lo + hi) / 2
+        if 1 / mid + 1 / (mid + 2 * kappa) <= 1:
+            hi = mid
+        else:
+            lo = mid
+    b = (lo + hi) / 2
+    grid = np.linspace(-math.pi, math.pi, 8001)
+    xax = kappa * np.sin(grid / 2) ** 2
+    dens = np.exp(-xax) * (1 + 2 * xax / b) ** (-2)
+    cum = np.concatenate([[0.0], np.cumsum((dens[1:] + dens[:-1]) / 2 * np.diff(grid))])
+    cum /= cum[-1]
+    return lambda t: np.interp(t, grid, cum)
 
 
 def stat_cases(r):
@@ -342,7 +363,11 @@ def stat_test(name, p, seed, n):
         # density of the angle phi from the top eigenvector ∝ exp(kappa cos^2 phi) = exp(kappa/2 cos 2phi) · const
         kappa = p["eps"] * (p["l1"] - p["l2"]) / (4 * p["sens"])
         two_phi = np.mod(2 * (ang - p["theta"]) + math.pi, 2 * math.pi) - math.pi
-        res.append(("bingham-2d:doubled-angle~vonMises", sup_distance(two_phi, lambda t: vonmises.cdf(t, kappa / 2)), thr, n))
+        d_ref = sup_distance(two_phi, lambda t: vonmises.cdf(t, kappa / 2))
+        suffix = "law"
+        if not d_ref <= thr and sup_distance(two_phi, bingham_inverted_cdf(kappa)) <= thr:
+            suffix = "law:acceptance-inverted"    # the sample follows exp(-u'Au)(u'Omega u)^(-q): ratio inverted
+        res.append(("bingham-2d:doubled-angle~vonMises", d_ref, thr, n, suffix))
         # antipodal symmetry: the sign of the released vector is a fair coin
         k = int(np.sum(ang >= 0))
         res.append(("bingham-2d:antipodal", abs(k / n - 0.5), thr, n))
@@ -442,12 +467,14 @@ def run_stats(ctx):
     n = min(n, 1000000)
     for idx, (name, p) in enumerate(stat_cases(r)):
         seed = r.next()
-        for label, stat, thr, nn in stat_test(name, p, seed, n):
+        for rec in stat_test(name, p, seed, n):
+            label, stat, thr, nn = rec[:4]
+            suffix = rec[4] if len(rec) > 4 else "law"
             ctx.case(("stat", label, idx))
             ctx.count("stat_tests")
             ctx.note(f"stat {label}: n={nn} sup-distance={stat:.5f} threshold={thr:.5f}")
             if not stat <= thr:
-                ctx.violation(f"C03:{name}:law",
+                ctx.violation(f"C03:{name}:{suffix}",
                               f"{label}: sup-distance {stat:.5f} > DKW threshold {thr:.5f} at n={nn} "
                               f"(false-alarm probability <= {ALPHA:g}) with parameters {p}",
                               {"check": "stat", "name": name, "params": p, "seed": seed, "n": n, "label": label,
@@ -1065,7 +1092,20 @@ def replay(ctx, data):
     d = data["data"]
     if d.get("check") == "stat":
         res = stat_test(d["name"], d["params"], int(d["seed"]), int(d["n"]))
-        return any(not stat <= thr for (label, stat, thr, nn) in res)
+        return any(not rec[1] <= rec[2] for rec in res)
     case = d["case"]
     eval_case(ctx, case)
     return len(ctx.violations) > 0
+
+
+def _witness_bingham(ctx):
+    p = {"eps": 1.8235, "sens": 1.0, "l1": 1.8564390614447663, "l2": 0.4303131159093847, "theta": 2.4384978145833873}
+    res = stat_test("bingham", p, 7, 100000)     # 20000 draws
+    rec = res[0]
+    fails = not rec[1] <= rec[2]
+    return fails, (f"Bingham(epsilon=1.8235).randomise in 2-D: doubled angle is at sup-distance {rec[1]:.4f} from the Bingham "
+                   f"(von Mises) law, DKW threshold {rec[2]:.4f} at n={rec[3]}; the sample follows exp(-u'Au)(u'Omega u)^(-q): "
+                   f"the acceptance ratio divides by the ACG factor instead of multiplying (bingham.py:147-149)")
+
+
+WITNESSES = {"C03:bingham:law:acceptance-inverted": _witness_bingham}
